@@ -7,7 +7,8 @@ case kinds
          after EVERY op: a description of the whole model through the public API
          (space tree, bases, cells + formula source + is_derived + inputs, references + values),
          dir(space), space.cells / refs / spaces / _own_refs, getattr kinds and the library's own
-         self-checks (mx.core.mxsys._check_sanity(), model._impl._check_sanity()).
+         self-checks (mx.core.mxsys._check_sanity(), model._impl._check_sanity()) and the nodes / edges of the
+         space manager's inheritance graph (model._impl.spmgr._graph).
   {"kind": "valid", "names": [str...]} -> {"valid": [bool...]}      util.is_valid_name
 
 ops (paths are lists of names, [] = the model)
@@ -209,6 +210,12 @@ def observe(m):
             o[key] = "ok"
         except BaseException as e:
             o[key] = "%s: %s" % (type(e).__name__, str(e)[:120])
+    # the inheritance graph the space manager keeps (no public accessor): node names and (base, sub) edges
+    try:
+        g = m._impl.spmgr._graph
+        o["graph"] = {"nodes": sorted(str(n) for n in g.nodes), "edges": sorted([str(a), str(b)] for a, b in g.edges)}
+    except BaseException as e:
+        o["graph"] = "err:%s: %s" % (type(e).__name__, str(e)[:120])
     return o
 
 
